@@ -38,6 +38,12 @@ def doWF(vtChannels: np.ndarray,
         A tuple with vtOptP and mu, where vtOptP are the optimum powers,
         while mu is the water level.
     """
+    # All the arithmetic below must be carried out in double precision,
+    # whatever the dtype of the provided channel gains (integer gains can
+    # overflow when multiplied by an integer `Es`; narrow float types would
+    # silently lower the precision of the returned powers)
+    vtChannels = np.asarray(vtChannels, dtype=float)
+
     # Sort Channels (descending order)
     vtChannelsSortIndexes = np.argsort(vtChannels)[::-1]
     vtChannelsSorted = vtChannels[vtChannelsSortIndexes]
